@@ -33,7 +33,8 @@ inductive Ev
   | record                       -- a worker records a failure
   | deliver (rows : Nat)         -- a worker hands a non-empty batch to the cursor
   | workersDone                  -- every worker exited; channels closed
-  | cancelCaller                 -- the Query context is canceled
+  | cancelCaller                 -- the Query context ends (cancel or deadline)
+  | propagate                    -- … and, some time later, the cursor's derived internal context observes it
   | nextEnter                    -- Next begins (entry check of the internal context)
   | nextRow                      -- Next returns true with a row of the pending batch
   | nextBatch                    -- Next takes a batch from the channel and returns true
@@ -56,10 +57,17 @@ def step (s : St) : Ev → Option St
     if s.workersDone || decide (s.chan ≥ 4) || decide (rows = 0) then none
     else some { s with chan := s.chan + 1, queue := s.queue ++ [rows] }
   | .workersDone => if s.workersDone then none else some { s with workersDone := true }
-  | .cancelCaller => some { s with callerCanceled := true, internalCanceled := true }
+  -- The internal context is derived from the Query context. For the standard library's contexts the
+  -- cancellation propagates synchronously (cancelCaller immediately followed by propagate); for any other
+  -- Context implementation a goroutine forwards it at some later point.
+  | .cancelCaller => some { s with callerCanceled := true }
+  | .propagate => if s.callerCanceled then some { s with internalCanceled := true } else none
   | .nextEnter =>
+    -- Next checks the internal context and then the Query context itself; seeing either done it terminates
+    -- (terminate cancels the internal context)
     if s.inNext then none
-    else some { s with inNext := true, sawCancel := s.internalCanceled, canceledAtEntry := s.callerCanceled }
+    else some { s with inNext := true, sawCancel := s.internalCanceled || s.callerCanceled,
+                       internalCanceled := s.internalCanceled || s.callerCanceled, canceledAtEntry := s.callerCanceled }
   | .nextFalseDone =>
     if s.inNext && s.iterDone then some { s with inNext := false, nextFalse := s.nextFalse + 1 } else none
   | .nextRow =>
